@@ -1054,6 +1054,9 @@ func (c *Conn) writeHandshakeRecord(msg handshakeMessage, transcript transcriptH
 	if err != nil {
 		return 0, err
 	}
+	if h := verifServerHook(c); h != nil && h.RewriteHandshake != nil {
+		data = h.RewriteHandshake(data)
+	}
 	if transcript != nil {
 		transcript.Write(data)
 	}
